@@ -8,7 +8,7 @@ wrong size (the code only ever passes `EthAddr.toRaw()`-style blobs of the exact
 padding/truncation of `ns` is not modelled — such a call is an error here).  `unpack` is `struct.unpack`: the buffer
 must have exactly the layout's size.
 -/
-namespace Pox.Layout
+namespace Pox.PktLayout
 
 inductive Field where
   | uint (w : Nat)          -- w-byte big-endian unsigned
@@ -59,4 +59,4 @@ def fits : Layout → List Val → Prop
   | .blob n :: L, .raw b :: vs => b.length = n ∧ fits L vs
   | _, _ => False
 
-end Pox.Layout
+end Pox.PktLayout
